@@ -175,13 +175,6 @@ Proof.
 Qed.
 Lemma dlist_sorted c : asorted (c_cache c) -> asorted (dlist c).
 Proof. intros S. unfold dlist. apply (map_keep_sorted (fun p => ce_val (snd p))). apply filter_sorted; auto. Qed.
-Lemma assoc_filter_val {V} (g : V -> bool) (l : list (bytes * V)) k :
-  assoc (filter (fun p => g (snd p)) l) k = match assoc l k with Some v => if g v then Some v else None | None => None end.
-Proof.
-  intros. induction l as [|[k0 v0] r IH]; simpl; auto. destruct (g v0) eqn:G0; simpl; destruct (beqb k0 k) eqn:B; auto.
-  - rewrite G0. reflexivity.
-  - rewrite G0. (* k0 = k but filtered out: then no later binding matters only if keys unique; not needed: state for sorted lists below *)
-Abort.
 Lemma assoc_filter_val {V} (g : V -> bool) (l : list (bytes * V)) k : dsorted true l ->
   assoc (filter (fun p => g (snd p)) l) k = match assoc l k with Some v => if g v then Some v else None | None => None end.
 Proof.
